@@ -159,6 +159,14 @@ def run_lines(binary, lines, timeout=600, per_line_resume=False, env=None):
             if out and out[-1] == "":
                 out.pop()
             died = "abort"
+            if p.returncode == 3 and out and out[-1] == "timeout" and len(out) < len(chunk):
+                # the driver's own watchdog answered the running request with `timeout` and ended the process
+                results.extend(out)
+                pos += len(out)
+                if not per_line_resume:
+                    results.extend(["not-run"] * (len(lines) - pos))
+                    break
+                continue
         except subprocess.TimeoutExpired as e:
             out = (e.stdout or b"").decode("utf-8", errors="replace").split("\n")
             if out and out[-1] == "":
